@@ -98,7 +98,7 @@ type Core struct {
 	Fails map[string]bool // "init" | "aps" | "run" | "close" -> return an error
 	// FailOnce: like Fails, but only the first invocation fails (transient fault)
 	FailOnce map[string]bool
-	Hook  func(kind string, who Node)
+	Hook     func(kind string, who Node)
 	// CloseFn, when set, runs between close-begin and close-end (gates, delays).
 	CloseFn func(who Node)
 }
